@@ -181,6 +181,8 @@ func ruleR13b(c *Check, g *gateInfo, rule string) {
 		c.Unknown(rule, "clear-after-success", "no site leading to Clear, or no completion call, in the executing method", "-")
 	}
 	for _, s := range sites {
+		_, isGo := s.(*ssa.Go)
+		c.Require(!isGo, rule, "clear-synchronous/"+c.P.FuncName(ex.ExecMethod), "the taint is removed before the executing method returns", "the taint is removed in a goroutine that nothing waits for: when the build returns (and the process exits) before it ran, the taint survives the successful execution and the target is executed again by the next build", c.P.InstrPos(s))
 		why := ""
 		for _, cp := range completes {
 			if w := onlyAfterSuccess(ex.ExecMethod, cp, s); w != "" {
